@@ -229,8 +229,25 @@ def run(chk, repo, tier):
                 sel.add(a)
     lo = any(a[1] == 'le' and a[2][0] == S('start') and _is_self_array(a[2][1], 'wave') for a in sel)
     hi = any(a[1] == 'le' and _is_self_array(a[2][0], 'wave') and a[2][1] == S('end') for a in sel)
-    chk.ob('C15-d', 'T-comparison', fi.key, 'selects start <= w <= end (closed on both sides)', lo and hi and len(sel) == 2,
-           '; '.join(sorted(nf.fmt_atom(a) for a in sel)), fi.loc())
+    # ... and by nothing else: every sample with start <= w <= end and no other one (a tolerance test or-ed to a bound lets
+    # samples outside the band in; in metres the default absolute tolerance of isclose is 10 nm)
+    extra = set()
+    COMBINE = ('le', 'lt', 'bitand', 'and', 'logical_and', 'nonzero', 'flatnonzero', 'intersect1d', 'm:nonzero', 'asarray')
+    for p in returns(pi_):
+        if any(pol and fmt(c) in ('is(start, (None))', 'is(end, (None))') for c, pol, _ in p.conds):
+            continue
+        for a in nf.value_atoms(p.ret):
+            if a[0] == 'idx' and _is_self_array(Poly.atom(a[1]), 'wave'):
+                for k in nf.value_atoms(a[2]):
+                    if k[0] == 'app' and not is_app(k, COMBINE) and any(_is_self_array(Poly.atom(x), 'wave') for x in nf.value_atoms(Poly.atom(k)) if x != k):
+                        extra.add(k)
+    widen = [k for k in extra if is_app(k, ('isclose', 'bitor', 'or', 'logical_or', 'bitxor', 'invert', 'not', 'logical_not'))]
+    verdict = (lo and hi and len(sel) == 2) if sel else None       # no comparison at all: selected some other way
+    if verdict and extra:
+        verdict = False if widen else None
+    chk.ob('C15-d', 'T-comparison', fi.key, 'selects start <= w <= end (closed on both sides)', verdict,
+           '; '.join(sorted(nf.fmt_atom(a) for a in sel)) +
+           ('; the selection also depends on ' + ', '.join(sorted(nf.fmt_atom(a)[:70] for a in extra)[:2]) if extra else ''), fi.loc())
 
     # pad: every appended wavelength gets exactly one appended value
     fpad = cls.find_method('pad')
